@@ -97,7 +97,7 @@ def _run(cmd, cwd, log_path, wall_timeout_s):
     return rc, timed_out, time.time() - t0
 
 
-def verify(harnesses, jobs, harness_timeout_s, wall_timeout_s, tag, stubbing=True):
+def verify(harnesses, jobs, harness_timeout_s, wall_timeout_s, tag, stubbing=True, extra=()):
     """returns (dict name -> HarnessResult, meta).  meta['fatal'] is set when nothing could be verified (build failure ...)"""
     d = prepare()
     os.makedirs(BUILD, exist_ok=True)
@@ -109,6 +109,7 @@ def verify(harnesses, jobs, harness_timeout_s, wall_timeout_s, tag, stubbing=Tru
            '-j', str(jobs), '--output-format', 'terse', '--export-json', out_json, '--exact']
     if stubbing:
         cmd += ['-Z', 'stubbing']
+    cmd += list(extra)
     for h in harnesses:
         cmd += ['--harness', h]
     rc, timed_out, wall = _run(cmd, d, log_path, wall_timeout_s)
@@ -185,8 +186,8 @@ def playback(harness, harness_timeout_s, tag, stubbing=True):
     rc, timed_out, wall = _run(cmd, d, log_path, harness_timeout_s + 300)
     log = open(log_path, errors='replace').read()
     tests = []
-    for blk in re.finditer(r'/// Check for `(\w+)`: "(.*?)"\s*\n#\[test\]\nfn \w+\(\) \{\n\s*let concrete_vals: Vec<Vec<u8>> = vec!\[\n(.*?)\n\s*\];', log, re.S):
-        kind, check, body = blk.group(1), blk.group(2).strip('"'), blk.group(3)
+    for blk in re.finditer(r'/// Check for `(\w+)`: ([^\n]*)\n(?:(?!/// Check for).)*?let concrete_vals: Vec<Vec<u8>> = vec!\[\n(.*?)\n\s*\];', log, re.S):
+        kind, check, body = blk.group(1), blk.group(2).strip().strip('"'), blk.group(3)
         vals, widths = [], []
         for ln in body.split('\n'):
             mm = re.match(r'\s*vec!\[(.*)\],?\s*$', ln)
